@@ -107,6 +107,23 @@ CHECKS["C08"] = dict(
     ref="DESIGN.md section 7 C08",
 )
 
+CHECKS["C18"] = dict(
+    module="Master",
+    technique="TLA+ model checking (TLC): exhaustive evaluation of the transcribed assignment function + all event sequences of the master state machine within bounds; trace validation of the real StateManager fed one discovery event at a time",
+    text=("Part A transcribes assignReplicasToStorageNodes as a TLA+ operator; TLC evaluates it for every cluster size "
+          "<=5, shard count <=8, replica factor, start index, replica shift and growth step (7200 cases, each growth "
+          "under all 25 fresh random choices): exactly rf distinct live nodes, round-robin first replicas, existing "
+          "shards untouched. Part B models the repository view and the state view separately with a queue of pending "
+          "discovery events and the five handlers of processEvent; TLC explores every sequence of node up/down, "
+          "create/grow/drop and event processing (245k states quick) and checks, whenever all events are processed, "
+          "online <=> some replica alive and leader = an alive replica. The real StateManager runs over an in-memory "
+          "repository with the harness as discovery watcher; after every step the storage state, the stored "
+          "assignments and the live sets must equal the model (the code's random start/shift bound existentially)."),
+    note=("Trusted: TLC, Json module, the in-memory repository and event feeder of the harness, the verif hook that calls "
+          "processEvent synchronously. Event order = order of repository writes (what an etcd watch delivers)."),
+    ref="DESIGN.md section 7 C18",
+)
+
 NOT_YET = {
 }
 
